@@ -3,6 +3,8 @@
 use crate::Ctx;
 use crate::model;
 use crate::out::Sink;
+use crate::gens::{self, Gen, GenCfg, Ty};
+use crate::hexpr::{assign, lam1, print_min};
 use crate::rng::Rng;
 use crate::rt::{RVal, ROut, Sess};
 use serde_json::json;
@@ -36,6 +38,8 @@ fn defs(k: f64) -> Vec<Def> {
         Def { class: "captures-closure-two-levels", setup: vec![format!("k = {}", ks), "g = y => y + k".into(), "h = z => g(z) * 2".into(), "f = x => h(x) - 1".into()], captured: vec!["h", "g", "k"], params: vec!["x"], expect: Box::new(move |a| n((a + k) * 2.0 - 1.0)) },
         Def { class: "do-block-local-named-like-captured-function", setup: vec!["g = x => x + 1".into(), format!("f = do {{\n g = y => g(y) * {}\n return g\n}}", ks)], captured: vec!["g"], params: vec!["y"], expect: Box::new(move |a| n((a + 1.0) * k)) },
         Def { class: "do-block-local-named-like-captured-function-used-under-that-name", setup: vec!["g = x => x + 1".into(), format!("f = do {{\n g = y => g(y) * {}\n return x => g(x)\n}}", ks)], captured: vec!["g"], params: vec!["x"], expect: Box::new(move |a| n((a + 1.0) * k)) },
+        Def { class: "do-local-rebinding-a-captured-name-from-itself", setup: vec![format!("k = {}", ks), "f = x => do {\n k = k + x\n return k * 2\n}".into()], captured: vec!["k"], params: vec!["x"], expect: Box::new(move |a| n((k + a) * 2.0)) },
+        Def { class: "lambda-parameter-named-like-captured-used-after", setup: vec![format!("k = {}", ks), "f = x => (k => k + 1)(x) + k".into()], captured: vec!["k"], params: vec!["x"], expect: Box::new(move |a| n(a + 1.0 + k)) },
         Def { class: "recursive-through-own-name", setup: vec!["f = x => if x <= 0 then 0 else x + f(x - 1)".into()], captured: vec![], params: vec!["x"], expect: Box::new(|a| n((1..=(a as i64).max(0)).map(|v| v as f64).fold(0.0, |s, v| s + v))) },
         Def { class: "captured-in-nested-lambda", setup: vec![format!("k = {}", ks), "f = x => ([x] via (y => y + k))[0]".into()], captured: vec!["k"], params: vec!["x"], expect: Box::new(move |a| n(a + k)) },
         Def { class: "captured-in-conditional-and-do", setup: vec![format!("k = {}", ks), "m = 2".into(), "f = x => if x > 100 then m else do {\n t = x * m\n return t + k\n}".into()], captured: vec!["k", "m"], params: vec!["x"], expect: Box::new(move |a| if a > 100.0 { n(2.0) } else { n(a * 2.0 + k) }) },
@@ -166,6 +170,100 @@ fn part_call_sites(ctx: &Ctx, sink: &mut Sink) {
     }
 }
 
+/// Random closed functions over random captured bindings (locals and parameters may shadow the
+/// captured names): the value right after the definition is the reference (model-free); every
+/// calling context that rebinds a captured / parameter name must give the identical value.
+fn part_random_closures(ctx: &Ctx, sink: &mut Sink) {
+    let n = ctx.budget(1500, 60_000);
+    for i in 0..n {
+        if !ctx.mine(i) {
+            continue;
+        }
+        let mut r = Rng::derive(ctx.seed, "c04-rand", i);
+        let sess = Sess::new();
+        let mut sc = gens::Scope::new();
+        let mut setup: Vec<String> = Vec::new();
+        let nbind = 1 + r.below(5);
+        for k in 0..nbind {
+            let t = *r.pick(&[Ty::Num, Ty::Num, Ty::Num, Ty::Str, Ty::LNum, Ty::Rec, Ty::FnNN]);
+            let e = {
+                let mut g = Gen::new(&mut r, GenCfg { shadowing_permille: 300, ..GenCfg::default() });
+                g.expr(t, 2, &mut sc)
+            };
+            let name = format!("cv{}", k);
+            let stmt = print_min(&assign(&name, e));
+            if sess.eval(&stmt).is_ok() {
+                sc.vars.push((name, t));
+                setup.push(stmt);
+            }
+        }
+        let depth = 2 + r.below(5);
+        let rt = *r.pick(&[Ty::Num, Ty::Num, Ty::LNum, Ty::Rec, Ty::Bool]);
+        let body = {
+            sc.vars.push(("x".into(), Ty::Num));
+            let mut g = Gen::new(&mut r, GenCfg { shadowing_permille: 400, ..GenCfg::default() });
+            let b = g.expr(rt, depth, &mut sc);
+            sc.vars.pop();
+            b
+        };
+        // a third of the bodies start by rebinding a captured numeric name from itself inside a
+        // do-block (the right-hand side must still see the captured value); that name is then the
+        // colliding one
+        let num_caps: Vec<String> = sc.of_ty(Ty::Num).iter().map(|s| s.to_string()).collect();
+        let mut forced: Option<String> = None;
+        let body = if !num_caps.is_empty() && r.chance(1, 3) {
+            let c = num_caps[r.below(num_caps.len())].clone();
+            forced = Some(c.clone());
+            crate::hexpr::H::Do(vec![assign(&c, crate::hexpr::bin(crate::hexpr::Op::Add, crate::hexpr::id(&c), crate::hexpr::id("x")))], Box::new(body))
+        } else {
+            body
+        };
+        let def = print_min(&assign("f", lam1("x", body)));
+        if !sess.eval(&def).is_ok() {
+            continue;
+        }
+        let arg = r.range(0, 9) as f64;
+        let v0 = sess.rout(&sess.eval(&format!("f({})", arg)));
+        let mut collide: Vec<String> = sc.vars.iter().map(|(n, _)| n.clone()).collect();
+        collide.push("x".into());
+        let cname = forced.unwrap_or_else(|| collide[r.below(collide.len())].clone());
+        let nontrivial = matches!(v0, ROut::Ok(_)) && def.contains("cv");
+        sink.case(&format!("c04r|{}|{}|{}", setup.join(";"), def, cname), nontrivial);
+        if !matches!(v0, ROut::Ok(_)) {
+            continue;
+        }
+        let ROut::Ok(v0v) = &v0 else { continue };
+        for (xi, c) in contexts(arg, &cname, i as usize).iter().enumerate() {
+            if c.class == "after-failed-rebinding" || c.class == "sort_by-key" {
+                continue;
+            }
+            let mut ok = true;
+            for s in &c.stmts {
+                if !sess.eval(s).is_ok() {
+                    ok = false;
+                }
+            }
+            if !ok {
+                continue;
+            }
+            let got = sess.rout(&sess.eval(&c.expr));
+            let want = ROut::Ok((c.wrap)(v0v.clone()));
+            // functions as results are compared structurally by RVal (same heap, same definition)
+            if got != want {
+                sink.viol(
+                    &format!("call-site random-closure context={}", c.class),
+                    "a closed function returns a different result from this call site",
+                    json!({"setup": setup, "definition": def, "context_statements": c.stmts, "expr": c.expr, "colliding_name": cname, "got": got.show(), "at_definition": v0.show()}),
+                );
+                break;
+            }
+            if sink.want_sample() && xi == 1 && nontrivial {
+                sink.sample(json!({"setup": setup, "definition": def, "context": c.expr, "colliding_name": cname, "result": got.show()}));
+            }
+        }
+    }
+}
+
 fn part_param_shadowing(ctx: &Ctx, sink: &mut Sink) {
     if ctx.shard_i != 0 {
         return;
@@ -269,6 +367,7 @@ fn part_arg_binding(ctx: &Ctx, sink: &mut Sink) {
 
 pub fn run(ctx: &Ctx, sink: &mut Sink) {
     part_call_sites(ctx, sink);
+    part_random_closures(ctx, sink);
     part_param_shadowing(ctx, sink);
     part_arg_binding(ctx, sink);
 }
